@@ -46,7 +46,9 @@ mod tests {
     #[test]
     fn keeps_line_continuations_of_query_text() {
         assert_eq!(
-            escape_query_text_for_single_quoted_js_string("query Q {\\\n  f(a: \"it's \\\" \\\\\"),\\\n}"),
+            escape_query_text_for_single_quoted_js_string(
+                "query Q {\\\n  f(a: \"it's \\\" \\\\\"),\\\n}"
+            ),
             "query Q {\\\n  f(a: \"it\\'s \\\\\" \\\\\\\\\"),\\\n}"
         );
     }
